@@ -287,6 +287,7 @@ def observe(X, y, low, tol, queries=None, history=None, queries_first=False):
         Xa, ya = np.array(X, dtype=float), np.array(y, dtype=float)
         eq, sx = read_hull(m)
         rec["sel"] = [int(i) for i in m.selected_idx_]
+        rec["dsimplices"] = np.asarray(m.directional_simplices_, dtype=int).tolist()
         rec["eq"] = eq.tolist()
         rec["simplices"] = sx.tolist()
         rec["high_idx"] = [int(i) for i in m.high_dim_idx_]
@@ -507,3 +508,126 @@ def facets_lit(rec):
 
 def Zs(x):
     return "(%d)" % x if x < 0 else "%d" % x
+
+
+# ------------------------------------------------------------------ large sample sets (n > 200)
+def _position_hull_ok(pos, d):
+    """footprint corners by scipy (generator side only) and an exact test that no other
+    position lies on a boundary face of the footprint; returns the corner ids or None."""
+    from scipy.spatial import ConvexHull
+    A = np.array(pos, dtype=float)
+    hull = ConvexHull(A)
+    Hm = np.concatenate([np.ones((len(pos), 1), dtype=np.int64), np.array(pos, dtype=np.int64)], axis=1)
+    for simp in hull.simplices:
+        M = Hm[simp]                                       # (d, d+1)
+        coef = np.array([(-1) ** j * int(det(M[:, [c for c in range(d + 1) if c != j]][None])[0])
+                         for j in range(d + 1)], dtype=np.int64)
+        g = Hm @ coef
+        on = np.where(g == 0)[0]
+        if len(on) != d:
+            return None
+    return sorted(int(v) for v in hull.vertices)
+
+
+def gen_large(rng, d, n):
+    """n (> 200) integer samples, d = 2 or 3 hull dimensions: distinct positions, no position on a
+    boundary face of the footprint besides its corners; bowl-shaped / random targets, and some
+    footprint corners (not necessarily per-coordinate extremes) get targets above everything else."""
+    R = 100 if d == 2 else 40
+    while True:
+        seen, pos = set(), []
+        shape = rng.choice(["box", "ball", "ball"])
+        while len(pos) < n:
+            x = tuple(rng.randint(-R, R) for _ in range(d))
+            if shape == "ball" and sum(v * v for v in x) > R * R:
+                continue
+            if x not in seen:
+                seen.add(x)
+                pos.append(list(x))
+        corners = _position_hull_ok(pos, d)
+        if corners is not None:
+            break
+    kind = rng.choice(["bowl", "bowl", "random", "tilted"])
+    tilt = [rng.randint(-20, 20) for _ in range(d)]
+    y = []
+    for x in pos:
+        q = sum(v * v for v in x) * 2000 // (R * R * d)
+        if kind == "bowl":
+            y.append(q + rng.randint(0, 600))
+        elif kind == "tilted":
+            y.append(q // 2 + sum(t * v for t, v in zip(tilt, x)) + rng.randint(0, 400))
+        else:
+            y.append(rng.randint(0, 3000))
+    top = max(y)
+    raised = []
+    for c in corners:
+        if rng.random() < 0.5:
+            y[c] = top + rng.randint(1, 1500)
+            raised.append(c)
+    return [[yy] + x for yy, x in zip(y, pos)], corners, raised, kind
+
+
+def exact_certificate(P, simplices, d):
+    """EXACT (integer) validation of the oracle contract on the directional facets given as
+    sample ids: every facet is a non-vertical simplex whose projection is non-degenerate
+    (simplex), every sample lies on or above its plane (h1; h2 holds by construction), the
+    projections cover every sample's position (h3); `on_plane` counts non-vertex samples exactly
+    on a facet's plane (not general position: reported, not alarmed).
+    Returns dict(ok, msg, on_plane)."""
+    S = np.array(simplices, dtype=np.int64).reshape(-1, d + 1)
+    n = len(P)
+    if len(S) == 0:
+        return dict(ok=False, msg="no directional facet", on_plane=0)
+    if S.min() < 0 or S.max() >= n:
+        return dict(ok=False, msg="facet vertex id out of range", on_plane=0)
+    Hh = _homog(P, False)                                  # (n, d+2): 1, y, x
+    M = Hh[S]                                              # (m, d+1, d+2)
+    coef = np.zeros((len(S), d + 2), dtype=np.int64)
+    for j in range(d + 2):
+        cols = [c for c in range(d + 2) if c != j]
+        dj = det(M[..., cols])
+        coef[:, j] = dj if j % 2 == 0 else -dj
+    ny = coef[:, 1]
+    if np.any(ny == 0):
+        f = int(np.where(ny == 0)[0][0])
+        return dict(ok=False, msg="directional facet %s is vertical or degenerate" % S[f].tolist(), on_plane=0)
+    G = (coef @ Hh.T) * np.sign(ny)[:, None]               # > 0: strictly above the facet's plane
+    if np.any(G < 0):
+        f, j = [int(v[0]) for v in np.where(G < 0)]
+        return dict(ok=False, msg="training sample %d lies below the plane of the directional facet %s" % (j, S[f].tolist()),
+                    on_plane=0, sample=j)
+    mask = np.ones_like(G, dtype=bool)
+    np.put_along_axis(mask, S, False, axis=1)
+    on_plane = int(np.sum((G == 0) & mask))
+    # coverage: D * lambda_k(x) = (1, x) . adj(A)[:, k] with A = rows (1, x_v)
+    Hx = _homog(P, True)                                   # (n, d+1)
+    A = Hx[S]                                              # (m, d+1, d+1)
+    D = det(A)
+    adj = np.zeros_like(A)
+    idx = list(range(d + 1))
+    for r in range(d + 1):
+        for k in range(d + 1):
+            minor = A[:, [i for i in idx if i != k]][:, :, [c for c in idx if c != r]]
+            adj[:, r, k] = ((-1) ** (r + k)) * det(minor)
+    lam = np.einsum("jr,frk->fjk", Hx, adj) * np.sign(D)[:, None, None]
+    covered = np.any(np.all(lam >= 0, axis=2), axis=0)
+    if not np.all(covered):
+        j = int(np.where(~covered)[0][0])
+        return dict(ok=False, msg="the position of training sample %d is not covered by any directional facet" % j,
+                    on_plane=on_plane, sample=j)
+    return dict(ok=True, msg=None, on_plane=on_plane)
+
+
+def lp_margin(P, d, i):
+    """supporting-hyperplane form, one linear program: the largest t such that some non-vertical
+    hyperplane through sample i lies at least t below every other sample (capped at 1).
+    t > 0 <=> i is a vertex of the lower hull."""
+    from scipy.optimize import linprog
+    A = np.array(P, dtype=float)
+    dx = np.delete(A[:, 1:] - A[i, 1:], i, axis=0)
+    dy = np.delete(A[:, 0] - A[i, 0], i)
+    c = np.zeros(d + 1)
+    c[-1] = -1.0
+    res = linprog(c, A_ub=np.hstack([dx, np.ones((len(dx), 1))]), b_ub=dy,
+                  bounds=[(None, None)] * d + [(None, 1.0)], method="highs")
+    return float(-res.fun) if res.status == 0 else None
